@@ -366,6 +366,10 @@ def main(argv: list[str]) -> int:
         tier = argv[1]
     tier = os.environ.get("VERIF_TIER", tier) if argv[1] not in ("quick", "thorough") else tier
     seed = int(os.environ.get("VERIF_SEED", "0"))
+    import faulthandler
+
+    # watchdog: a stuck run is a harness failure (exit 2 via faulthandler's hard exit), never a verdict
+    faulthandler.dump_traceback_later(900 if tier == "quick" else 5400, exit=True)
     try:
         mod = importlib.import_module(f"harness.props.{pid.lower()}")
         prop = mod.PROP
